@@ -128,6 +128,8 @@ FnThm(e, d) ==
                 [] name = "values" -> \A x \in OkOf(o) : SeqBag(x[2][2]) = SeqBag([i \in 1..Cardinality(a[2]) |-> SeqOfSet(a[2])[i][2]])
                 [] name = "sum" -> a[2] # <<>> => \A x \in OkOf(o), y \in Outcomes(C1("avg", Lit(a)), Null) : x[2][2] * y[2][3] = y[2][2] * Len(a[2]) * x[2][3]
                 [] name = "avg" -> a[2] = <<>> => o = OkS(Null)
+                [] name \in {"abs", "ceil", "floor"} /\ IsBig(a) -> o = OkS(a)
+                [] name \in {"sum", "avg"} /\ HasBig(a[2]) -> TRUE
                 [] name = "abs" -> \A x \in OkOf(o) : x[2][2] >= 0 /\ (x[2] = a \/ x[2] = Num(-a[2], a[3]))
                 [] name \in {"ceil", "floor"} -> \A x \in OkOf(o) : /\ x[2][3] = 1
                                                    /\ (IF name = "floor" THEN x[2][2] * a[3] <= a[2] /\ a[2] < (x[2][2] + 1) * a[3]
